@@ -105,8 +105,16 @@ func (c *Ctx) ruleReaderState() {
 			n++
 			fname := deref(fa.X.Type()).Underlying().(*types.Struct).Field(fa.Field).Name()
 			cons := fmt.Sprintf("%s#.%s", FuncName(fn), fname)
+			isWalkCB := false
+			for _, w := range c.walks() {
+				if w.Callback == fn {
+					isWalkCB = true
+				}
+			}
 			if isAppendOfField(P, st.Val, fa) {
 				c.ok("READER-STATE", cons, P.Pos(st.Pos()), "append-only accumulator field")
+			} else if isWalkCB && pp == "ignore" {
+				c.ok("READER-STATE", cons, P.Pos(st.Pos()), "search state of a scope computation local to one comment (SCOPE rules)")
 			} else {
 				c.fail("READER-STATE", cons, P.Pos(st.Pos()), "the reader assigns a field of a shared object: what is read for one declaration depends on the declarations before it")
 			}
